@@ -1,6 +1,6 @@
 """Per-check metadata from which bin/mkmanifest writes MANIFEST.json."""
 
-HOOK_COMMITS = ["3c48510", "e2e1b97", "035de92", "8d2dfbb", "87c61cc", "5f32c19", "20f82c0", "cad1219"]
+HOOK_COMMITS = ["3c48510", "e2e1b97", "035de92", "8d2dfbb", "87c61cc", "5f32c19", "20f82c0", "cad1219", "e2c6986"]
 FIX_COMMITS = ["4036763", "5f5d3b9", "e0b60a8", "6cf1e6b", "6eae605", "8378524", "a71bd21", "3012537", "59d973f", "aa35bd8", "58124f2", "9fc07cf", "5316fe1", "f24111c", "ed45003"]
 
 NOTES = ("One engine: TLA+ specifications under spec/, TLC for the design, Go harness (harness/) for conformance. "
